@@ -382,7 +382,8 @@ use std::sync::{Arc, Mutex, MutexGuard};
 // Deterministic-simulation builds (cfg savefile_verif_shuttle, never set by cargo features) take the
 // cache locks from the shuttle scheduler so that their interleavings can be explored.
 #[cfg(savefile_verif_shuttle)]
-use shuttle::sync::{Mutex, MutexGuard};
+#[allow(unused_imports)]
+use shuttle::sync::{Condvar, Mutex, MutexGuard};
 #[cfg(savefile_verif_shuttle)]
 use std::sync::Arc;
 use std::task::Wake;
